@@ -44,6 +44,7 @@ class Stats:
         self.known = {}
         self.rejected = 0
         self.inconclusive = []
+        self.transient = []
         self.errors = []
 
     def add(self, r):
@@ -326,8 +327,14 @@ def run_check(pid, tier, seed):
                 path = write_violation(pid, failure, last)
                 violation = (path, failure["message"])
                 break
+            elif c == 0:
+                # the saved scenario passes three times out of three from fresh processes: the first failure was noise of the
+                # machine (a watchdog hit under load), not a behaviour of the code under test.  Counted, reported, not a verdict.
+                stats.transient.append("failed once, then passed 3/3 on re-run: %s" % failure["message"][:300])
             else:
                 stats.inconclusive.append("non-reproducible failure (%d/3): %s" % (c, failure["message"][:300]))
+    for t in stats.transient[:5]:
+        print("NOTE: " + t[:600], file=sys.stderr)
     if violation:
         nviol = 1
         print("VIOLATION property=%s replay=%s" % (pid, violation[0]))
@@ -349,6 +356,7 @@ def run_check(pid, tier, seed):
         "rejected_by_compiler": stats.rejected,
         "known_finding_hits": stats.known,
         "inconclusive": len(stats.inconclusive) + len(stats.errors),
+        "transient_failures_not_reproduced": len(stats.transient),
         "random_cases_requested": n_random,
         "workers": WORKERS,
     }
